@@ -233,7 +233,12 @@ class Run(Oracles):
         w.observe("op")
 
     def start_actor(self, op: dict) -> None:
-        t = asyncio.ensure_future(getattr(self, "actor_" + op["op"])(op))
+        coro = getattr(self, "actor_" + op["op"])(op)
+        if op.get("place", "eager") == "eager":
+            # the caller awaits the blocking method in place: its synchronous prefix runs right now (Python 3.12 eager start)
+            t = asyncio.Task(coro, loop=self.w.loop, eager_start=True)
+        else:
+            t = asyncio.ensure_future(coro)
         t.vt_pm = self.pm_of(op)  # type: ignore[attr-defined]
         self.w.actors.append(t)
 
